@@ -280,6 +280,22 @@ func c17StreamOrder(c *Ctx) {
 				if i, ok := c17BodyCalls[name]; ok && i < len(ci.Common().Args) {
 					bodies = append(bodies, site{ci, ci.Common().Args[i], name})
 				}
+				// reading the member's bytes straight from the underlying reader
+				if name == "io.NewSectionReader" && len(ci.Common().Args) > 0 {
+					if l, ok := stripConv(ci.Common().Args[0]).(*ssa.UnOp); ok && l.Op == token.MUL {
+						if fa, ok := l.X.(*ssa.FieldAddr); ok {
+							if tn, f, base := p.fieldAddr(fa); tn == "lib/zipslicer.File" && f == "r" {
+								// only reads of the member's data (offset derives from lfh lengths), not header reads
+								if dependsOn(ci.Common().Args[1], func(x ssa.Value) bool {
+									t2, f2, _ := p.fieldLoad(x)
+									return t2 == "lib/zipslicer.zipLocalHeader" && (f2 == "FilenameLen" || f2 == "ExtraLen")
+								}) {
+									bodies = append(bodies, site{ci, base, "read of the member data from the underlying reader"})
+								}
+							}
+						}
+					}
+				}
 				// a MangleFunc callback receives the member and may read it
 				if ci.Common().StaticCallee() == nil && !ci.Common().IsInvoke() {
 					if strings.HasSuffix(ci.Common().Value.Type().String(), "lib/zipslicer.MangleFunc") && len(ci.Common().Args) > 0 {
@@ -546,4 +562,82 @@ func c17DescriptorDiscriminator(c *Ctx) {
 	}
 	c.Check(consults, "R17l", "readDataDesc consults the ZIP64 mark when choosing the layout", p.Pos(wideRead.Pos()), "the choice depends on lfh.ReaderVersion",
 		"readDataDesc chooses between the 16-byte and the 24-byte descriptor by comparing sizes only, while NewFile writes the 24-byte layout for members of every size: for an empty member both layouts match (the upper half of a 64-bit compressed size is zero) and relic takes its own member to be 8 bytes shorter than it is; re-signing then cuts the archive in the wrong place")
+}
+
+// ------------------------------------------------------------------------------ R17m
+
+// c17RawReadOnly: File.raw caches the ORIGINAL bytes of a directory entry so that an unmodified
+// directory is re-emitted exactly. Copies of a File (MangleFile) share that slice with the
+// source directory, so it must never be written through: it is only ever replaced as a whole
+// (a fresh make+copy, or nil).
+func c17RawReadOnly(c *Ctx) {
+	p := c.P
+	n := 0
+	for _, fn := range p.pkgFuncs("lib/zipslicer") {
+		k := 0
+		isRaw := func(v ssa.Value) bool {
+			return dependsOn(v, func(x ssa.Value) bool {
+				if l, ok := x.(*ssa.UnOp); ok && l.Op == token.MUL {
+					return p.memKey(l.X) == "f:lib/zipslicer.File.raw"
+				}
+				return false
+			})
+		}
+		for _, b := range fn.Blocks {
+			for _, in := range b.Instrs {
+				what := ""
+				switch x := in.(type) {
+				case *ssa.Store:
+					if ia, ok := x.Addr.(*ssa.IndexAddr); ok && isRaw(ia.X) {
+						what = "element store"
+					}
+				case ssa.CallInstruction:
+					name := p.calleeName(x.Common())
+					switch {
+					case strings.HasPrefix(name, "(encoding/binary.littleEndian).Put") || strings.HasPrefix(name, "(encoding/binary.bigEndian).Put"):
+						if isRaw(x.Common().Args[1]) {
+							what = name
+						}
+					case name == "copy" || (x.Common().StaticCallee() == nil && !x.Common().IsInvoke()):
+						if bi, ok := x.Common().Value.(*ssa.Builtin); ok && bi.Name() == "copy" && isRaw(x.Common().Args[0]) {
+							// copy INTO raw is fine only when raw was just allocated in this function
+							if !c17FreshRaw(p, fn, x.Common().Args[0]) {
+								what = "copy into the cached entry"
+							}
+						}
+					}
+				}
+				if what == "" {
+					continue
+				}
+				n++
+				k++
+				c.Fail("R17m", fmt.Sprintf("%s writes through File.raw#%d", p.FName(fn), k), p.Pos(in.Pos()), "the cached original directory entry (File.raw) is modified in place ("+what+"): copies of the File made by Mangle share that slice with the directory that was read, so re-emitting the \"unmodified\" source directory afterwards no longer reproduces the original bytes")
+			}
+		}
+	}
+	// the one legitimate writer: ReadWithDirectory fills a freshly made slice
+	okFill := false
+	if rw := p.Func("lib/zipslicer.ReadWithDirectory"); rw != nil {
+		for _, b := range rw.Blocks {
+			for _, in := range b.Instrs {
+				if st, ok := in.(*ssa.Store); ok && p.memKey(st.Addr) == "f:lib/zipslicer.File.raw" {
+					if _, isMk := st.Val.(*ssa.MakeSlice); isMk {
+						okFill = true
+					}
+				}
+			}
+		}
+	}
+	c.Check(okFill, "R17m", "ReadWithDirectory caches each entry in a slice of its own", "-", "f.raw = make(...) then copy", "the original directory entry is no longer cached in a freshly allocated slice")
+}
+
+func c17FreshRaw(p *Prog, fn *ssa.Function, dst ssa.Value) bool {
+	l, ok := dst.(*ssa.UnOp)
+	if !ok || l.Op != token.MUL {
+		return false
+	}
+	sv := p.lastStoreBefore(l)
+	_, isMk := sv.(*ssa.MakeSlice)
+	return isMk
 }
